@@ -6,6 +6,8 @@
 (*   reset {ratio, ...}                                                    *)
 (*   step  {a, st, keys, entries}                                          *)
 (*   batch {as, st, keys, entries}       critical sections queued on the held mutex    *)
+(*                                       or released together by one barrier (race step)  *)
+(*   run   {a, n, ok, st, keys, entries} n cycles of acquire a and its release by one process     *)
 (*   mon   {kind: "in"|"out", p, k, m}   free-running monitor events       *)
 EXTENDS Semap, Json, IOUtils
 
@@ -63,6 +65,23 @@ TBatch(e) ==
          /\ e.entries = Cardinality({k \in Keys : ent'[k] # 0})
          /\ UNCHANGED inside
 
+(* A run: n cycles of one acquire and its release, back to back, by an idle process, issued only  *)
+(* where the acquire is granted at once.  Then one cycle leaves the state exactly as it was, hence *)
+(* so do n of them: every cycle must have gone through (ok = n) and the observation is that of the *)
+(* unchanged state.                                                                                *)
+TRun(e) ==
+  LET a == e.a
+      t == AcquireF(S, a.p, a.k, a.m)
+  IN /\ CanAcquire(S, a.p)
+     /\ t.pc[a.p] = "hold"
+     /\ ReleaseF(t, a.p) = S
+     /\ e.n >= 1 /\ e.ok = e.n
+     /\ \A p \in 1..Len(e.st) : e.st[p] = Status(pc[p])
+     /\ \A k \in 1..Len(e.keys) : e.keys[k] = KeyObs(k, ent, cur, wq)
+     /\ e.entries = Cardinality({k \in Keys : ent[k] # 0})
+     /\ last' = [op |-> "run"]
+     /\ UNCHANGED <<vars, inside>>
+
 (* Free-running stress: `in` is logged after an acquire returned, `out`    *)
 (* before the release is called, so logged hold intervals lie inside the   *)
 (* real ones and an overlap in the log is a real overlap.                  *)
@@ -87,6 +106,7 @@ TraceNext ==
        CASE e.ev = "reset" -> TReset(e)
          [] e.ev = "step"  -> TStep(e)
          [] e.ev = "batch" -> TBatch(e)
+         [] e.ev = "run"   -> TRun(e)
          [] e.ev = "mon"   -> TMon(e)
          [] e.ev = "end"   -> TEnd(e)
          [] OTHER -> FALSE
